@@ -647,6 +647,10 @@ namespace
                                 int hi = rg.head_index();
                                 rg.head_place() = v;
                                 if (rg.get(hi) != v) violate("C03/get", "get(head_index) does not address head_place()");
+                                // the producer looks at the prepared slot again before it publishes it (a second field, a checksum):
+                                // the accessor addresses the slot, it does not change it
+                                if (rg.head_place() != v || rg.head_place() != v) violate("C03/head_place", "head_place() called again for the same slot no longer yields what was stored there");
+                                if (&rg.head_place() != &rg.get(hi)) violate("C03/head_place", "two calls of head_place() address different slots");
                                 rg.move_head_one();
                                 m.push_back(v);
                                 hist.push_back(v);
